@@ -144,6 +144,18 @@ impl CgrComputer {
     }
 }
 
+/// Public routes to the private routines for the verification harness.
+#[cfg(kmertools_verif)]
+impl CgrComputer {
+    pub fn verif_set_max_memory(&mut self, memory: usize) {
+        self.memory = memory;
+    }
+
+    pub fn verif_vectorise_one(&self, seq: &[u8]) -> Result<Vec<Point>, String> {
+        self.vectorise_one(seq)
+    }
+}
+
 #[cfg(test)]
 mod tests {
     use super::*;
